@@ -5,7 +5,7 @@
 (* The shapes are those of ConfigShapes.   Rejections prefixed fid- are fidelity only.               *)
 EXTENDS ConfigShapes, Json
 Trace == ndJsonDeserialize("trace.ndjson")
-VARIABLES l, nrej
+VARIABLES l, nrej, memo
 Fatal == 7  Pass == 3
 ToSet(s) == {s[i] : i \in 1..Len(s)}
 \* the document of an event: as logged, the empty one, or the example the model predicts
@@ -22,7 +22,14 @@ ObsReasons(D, o) ==
       (IF o.st = Pass /\ DOMAIN o.vals # sh.opts THEN {<<o.lint, "fid-report-shape">>} ELSE {}) \cup
       (IF o.st = Pass /\ ToSet(o.ptrs) # r.ptrs THEN {<<o.lint, "fid-pointer-resolution">>} ELSE {}) \cup
       (IF o.st \notin {Pass, Fatal} THEN {<<o.lint, "fid-unexpected-status">>} ELSE {})
-RunReasons(e) == UNION {ObsReasons(DocOf(e), e.obs[i]) : i \in 1..Len(e.obs)} \cup
+\* C11 read directly: documents that say the same to a lint (same own section, same sections of the higher-scoped
+\* configurations it references) must make it behave identically - whatever else they contain, and whether or not they contain
+\* anything at all.  memo: <<lint, what the document says to it>> -> first observation.
+SaysTo(D, ln) == [key \in Reads(Shapes[ln], ln) |-> Get(D, key)]
+Seen(o) == <<o.st, o.cls, o.vals, ToSet(o.ptrs), o.escaped>>
+MemoReasons(D, o) == LET k == <<o.lint, SaysTo(D, o.lint)>> IN
+   IF k \in DOMAIN memo /\ memo[k] # Seen(o) THEN {<<o.lint, "behaviour-differs-between-configurations-that-say-the-same-to-the-lint">>} ELSE {}
+RunReasons(e) == UNION {ObsReasons(DocOf(e), e.obs[i]) \cup MemoReasons(DocOf(e), e.obs[i]) : i \in 1..Len(e.obs)} \cup
                  (IF {e.obs[i].lint : i \in 1..Len(e.obs)} = DOMAIN Shapes THEN {} ELSE {<<"", "fid-mock-missing">>})
 ExampleReasons(e) ==
    LET M == ExampleDoc(Shapes, ExampleGlobals) IN
@@ -34,10 +41,17 @@ ExampleReasons(e) ==
    (IF e.nontables = <<>> THEN {} ELSE {<<"", "fid-example-top-level-values">>})
 Reasons(e) == CASE e.ev = "Run" -> RunReasons(e) [] e.ev = "Example" -> ExampleReasons(e)
                 [] e.ev = "Unloadable" -> {<<"", "fid-document-not-loadable">>} [] OTHER -> {}
-TraceInit == l = 1 /\ nrej = 0
+TraceInit == l = 1 /\ nrej = 0 /\ memo = <<>>
 Step == /\ l <= Len(Trace)
         /\ LET r == Reasons(Trace[l]) IN IF r = {} THEN nrej' = nrej ELSE PrintT(<<"REJECT", l, r>>) /\ nrej' = nrej + 1
+        /\ LET e == Trace[l] IN
+             IF e.ev = "Run" THEN
+                LET D == DocOf(e)
+                    ks == {<<e.obs[i].lint, SaysTo(D, e.obs[i].lint)>> : i \in 1..Len(e.obs)} IN
+                memo' = [k \in DOMAIN memo \cup ks |-> IF k \in DOMAIN memo THEN memo[k]
+                                                       ELSE Seen(e.obs[CHOOSE i \in 1..Len(e.obs) : e.obs[i].lint = k[1]])]
+             ELSE memo' = memo
         /\ l' = l + 1
-Done == l = Len(Trace) + 1 /\ PrintT(<<"DONE", Len(Trace), nrej>>) /\ l' = l + 1 /\ UNCHANGED nrej
-TraceSpec == TraceInit /\ [][Step \/ Done]_<<l, nrej>>
+Done == l = Len(Trace) + 1 /\ PrintT(<<"DONE", Len(Trace), nrej>>) /\ l' = l + 1 /\ UNCHANGED <<nrej, memo>>
+TraceSpec == TraceInit /\ [][Step \/ Done]_<<l, nrej, memo>>
 =============================================================================
